@@ -94,6 +94,18 @@ def build_service(rec, behaviours=None):
                 return f(token)
             raise RuntimeError('secret-%s' % token)
 
+        @rpc(Unicode, _returns=Iterable(Integer))
+        def gboom(ctx, token):
+            # the same as boom, written as a generator function: the body only starts to run when the transport asks for the
+            # first item
+            rec.enter('gboom', token)
+            f = beh.get('boom')
+            if f is not None:
+                f(token)
+            else:
+                raise RuntimeError('secret-%s' % token)
+            yield 1
+
         @rpc(_returns=Integer)
         def noargs(ctx):
             rec.enter('noargs')
